@@ -833,6 +833,9 @@ func c16ConfigRun(st *c16State, doc string, accts []*hAccount) []*beaconblockpro
 	return out
 }
 
+var c16TopLevelDocs = []string{`null`, ``, ` `, `[]`, `[null]`, `0`, `""`, `true`, `{}`, `{"version":null}`, `{"version":0}`, `{"version":1}`, `{"version":2}`, `{"version":3}`, `{"version":"2"}`,
+	`{"version":2,"relays":null}`, `{"version":2,"proposers":null}`, `{"default_config":null}`, `{"proposer_config":null}`, `{"version":1,"default_config":null,"proposer_config":null}`}
+
 func c16ConfigUnits(tier string) []hx.Unit {
 	v1, v2 := newAccount("W", "v1", 1), newAccount("W", "v2", 2)
 	relaypub := "0x" + strings.Repeat("a1", 48)
@@ -846,6 +849,16 @@ func c16ConfigUnits(tier string) []hx.Unit {
 		}
 		var pos []*c16Node
 		tree.positions("$", nil, &pos)
+		if fmtName == "v2" {
+			// documents that are not a configuration object at all, or carry only a version
+			st := &c16State{fam: "config/toplevel"}
+			units = append(units, c16Unit("C16/config/toplevel", time.Second, st, func() {
+				doc := c16TopLevelDocs[mc.Choose(len(c16TopLevelDocs))]
+				st.input = "document " + doc
+				st.nontriv = true
+				c16ConfigRun(st, doc, []*hAccount{v1, v2})
+			}))
+		}
 		{
 			tree := tree
 			st := &c16State{fam: "config/" + fmtName}
@@ -1885,16 +1898,31 @@ var c16ErrorJSONs = []string{
 	`{"failures":[{"index":0,"message":"Verification: PriorSyncCommitteeMessageKnown { validator_index: 1, slot: 2 }"},null]}`,
 }
 
+// c16IndexedErrorJSONs are rejections that name a position of the submitted batch (of one or two items):
+// inside it, just outside it, far outside it, negative.
+func c16IndexedErrorJSONs() []string {
+	var out []string
+	for _, idx := range []string{"-1", "0", "1", "2", "3", "2147483648", "9223372036854775807", "-9223372036854775808"} {
+		for _, msg := range []string{"Verification: PriorSyncCommitteeMessageKnown { validator_index: 1, slot: 2 }", "Verification: InvalidSignature", "Ignoring sync committee message as a duplicate was processed during validation", "Rejected"} {
+			out = append(out, `{"code":400,"message":"x","failures":[{"index":`+idx+`,"message":"`+msg+`"}]}`)
+		}
+		out = append(out, `{"code":400,"message":"x","failures":[{"index":0,"message":"Rejected"},{"index":`+idx+`,"message":"Verification: PriorSyncCommitteeMessageKnown { validator_index: 1, slot: 2 }"}]}`)
+	}
+	return out
+}
+
 func c16SubmitUnits(tier string) []hx.Unit {
 	var units []hx.Unit
+	texts := append(append([]string{}, c16ErrorJSONs...), c16IndexedErrorJSONs()...)
 	prefixes := []string{lhPrefix, "", "dial tcp: lookup {node}: no such host "}
 	for _, kind := range []string{"messages", "contributions"} {
 		for _, client := range []string{"Lighthouse", "teku", "Nimbus", ""} {
 			kind, client := kind, client
 			st := &c16State{fam: "submit-error/" + kind}
 			units = append(units, c16Unit(fmt.Sprintf("C16/submit-error/%s/client=%q", kind, client), 30*time.Second, st, func() {
-				text := prefixes[mc.Choose(len(prefixes))] + c16ErrorJSONs[mc.Choose(len(c16ErrorJSONs))]
-				st.input = fmt.Sprintf("node version %q rejects the submission with error text %q", client+"/v1.0.0", text)
+				text := prefixes[mc.Choose(len(prefixes))] + texts[mc.Choose(len(texts))]
+				batch := 1 + mc.Choose(2)
+				st.input = fmt.Sprintf("node version %q rejects the submission of %d item(s) with error text %q", client+"/v1.0.0", batch, text)
 				st.nontriv = true
 				nodes := []*c08Node{{beh: c08Beh{name: "c16", client: client, errText: text}}}
 				if mc.Choose(2) == 1 {
@@ -1904,9 +1932,9 @@ func c16SubmitUnits(tier string) []hx.Unit {
 				st.call(func() {
 					var err error
 					if kind == "messages" {
-						err = svc.SubmitSyncCommitteeMessages(context.Background(), mk[altair.SyncCommitteeMessage](2))
+						err = svc.SubmitSyncCommitteeMessages(context.Background(), mk[altair.SyncCommitteeMessage](batch))
 					} else {
-						err = svc.SubmitSyncCommitteeContributions(context.Background(), mkContribs(2))
+						err = svc.SubmitSyncCommitteeContributions(context.Background(), mkContribs(batch))
 					}
 					st.outcome = fmt.Sprintf("err=%v", err != nil)
 				})
@@ -1939,7 +1967,7 @@ func init() {
 			"proposals = Prepare+Propose of the real proposer for phase0..deneb x blinded header x auctioneer {none, error, no relays, no winner, winner, winner that cannot unblind} x every single replacement in the proposal (to depth 4) x value headers x unblinding answers {block, 400, error, no data}; the same proposals through the best proposal strategy with 1-2 nodes; " +
 			"graffiti = 16 file contents of the dynamic provider (plain, 32 bytes, longer, {{CLIENT}} templates, missing, error) x node client names of length 0,1,4,8,10,40 / error / no name, through proposer and best strategy; " +
 			"attester duties = all lists up to length 3 (thorough 4) over 13 elements (duplicates, out-of-epoch, slot 2^63 and 2^64-1, unknown validator, zero fields, null, {}); head and block events with zero / maximal fields and without data, the fetched block being any single replacement (to depth 5) of a signed block of each version, at service start and on the event, for the cache and the proposal strategy; " +
-			"lighthouse/teku error JSON (26 texts incl. failures:[null]) through the multinode submitter; proposal, bid, event and graffiti families are run both with logging disabled and with trace logging (output discarded); " +
+			"lighthouse/teku error JSON (26 texts incl. failures:[null], plus 40 texts whose failure index lies inside, on the edge of, outside or far outside the batch of 1-2 items) through the multinode submitter; top-level configuration documents that are no object (null, empty, [], scalars) or carry only a version; proposal, bid, event and graffiti families are run both with logging disabled and with trace logging (output discarded); " +
 			"oracle: no panic and the call returns; non-trivial = the input has at least one absent/null/zero/unparsable element; distinct = distinct (family, outcome) labels",
 		Assumptions: []string{
 			"beacon nodes and relays are reached through go-eth2-client v0.21.11 / go-builder-client v0.5.1 HTTP clients: a value is deliverable iff their JSON decoding and post-decode checks (mirrored in the harness) let it through; inputs on which the client library itself panics before returning are counted as not delivered",
